@@ -2,6 +2,7 @@
 import json
 import math
 import os
+import re
 
 import common as C
 import decoders as D
@@ -10,7 +11,11 @@ import values as V
 PID = "C03"
 THEOREMS = ["json_text_roundtrip", "to_json_lossless", "json_output_decodes", "to_json_error_iff", "int_text_value",
             "toml_string_roundtrip", "toml_key_roundtrip", "toml_int_roundtrip", "toml_float_text", "to_toml_error_iff", "toml_output_no_panic",
-            "toml_doc_roundtrip", "toml_good_total", "toml_mixed_array_refuted", "toml_nested_table_array_alters"]
+            "toml_doc_roundtrip", "toml_good_total", "toml_mixed_array_refuted", "toml_nested_table_array_alters",
+            "YamlP.to_yaml_error_iff", "YamlP.yaml_output_error_iff", "YamlP.yaml_emit_total", "YamlP.null_bool_quoted", "YamlP.yaml_int_roundtrip",
+            "YamlP.yaml_scalar_kinds", "YamlP.yaml_float_nonfinite", "YamlP.yaml_string_roundtrip_ascii", "YamlP.yaml_ident_roundtrip",
+            "YamlP.yaml_doc_roundtrip_partial", "YamlP.yaml_doc_roundtrip_list_partial", "YamlP.yaml_number_overflow_refuted",
+            "YamlP.yaml_ls_string_refuted"]
 CONVS = ["json", "yaml", "toml", "yamlmulti"]
 
 
@@ -51,6 +56,49 @@ def known_json_int(v):
     return V.contains(v, lambda x: x[0] == "i" and abs(x[1]) > (1 << 53) and int(float(x[1])) != x[1])
 
 
+def yaml_number_like_overflow(s):
+    """KNOWN C03-yaml-number-like-string: a STRING that a YAML 1.2 core-schema reader resolves as a number although the writer's own
+    number parser (serde_yaml: u64/i64/u128/i128, then f64 accepted only when finite) does not, so that it is left unquoted"""
+    try:
+        d = D.yaml_load(s)
+    except Exception:
+        return False
+    if isinstance(d, bool) or d is None:
+        return False
+    if isinstance(d, float):
+        return math.isinf(d) and re.fullmatch(r"[-+]?\.(inf|Inf|INF)", s) is None
+    if isinstance(d, int):
+        return d > (1 << 128) - 1 or d < -(1 << 127)
+    return False
+
+
+def known_yaml_number_string(v):
+    def walk(x):
+        if x[0] == "s":
+            return yaml_number_like_overflow(x[1])
+        if x[0] == "l":
+            return any(walk(y) for y in x[1])
+        if x[0] == "t":
+            return any(yaml_number_like_overflow(k) or walk(y) for k, y in x[1])
+        return False
+    return walk(v)
+
+
+def has_ls_ps(v):
+    def chk(t):
+        return "\u2028" in t or "\u2029" in t
+
+    def walk(x):
+        if x[0] == "s":
+            return chk(x[1])
+        if x[0] == "l":
+            return any(walk(y) for y in x[1])
+        if x[0] == "t":
+            return any(chk(k) or walk(y) for k, y in x[1])
+        return False
+    return walk(v)
+
+
 def mixed_array(x):
     return x[0] == "l" and any(e[0] == "t" for e in x[1]) and any(e[0] != "t" for e in x[1])
 
@@ -83,7 +131,11 @@ SIGNIFICANT = ["1979-05-27", "07:32:00", "1979-05-27T07:32:00Z", "1979-05-27 07:
                "y", "n", "1", "-1", "+1", "1.5", "1e3", "1E-3", "0x1F", "0o17", "017", "0b11", "1_000", ".inf", "-.inf", ".nan", ".NaN",
                "inf", "-inf", "nan", "", " ", " lead", "trail ", "- a", "-", "a: b", "a:", ": a", "#c", "a #c", "'q'", '"dq"', "---", "...",
                "|", ">", "|-", "[1]", "{a}", "[", "]", "{", "}", ",", "!!str x", "!x", "&a", "*a", "@x", "`x", "%x", "?", "? a", "<<", "=",
-               "a\nb", "a\tb", "\\", "a\\nb", "\u00e9", "é", "\x7f"]
+               "a\nb", "a\tb", "\\", "a\\nb", "\u00e9", "é", "\x7f",
+               # numbers only for a reader: beyond what the writer's own number parser accepts
+               "1e999", "-1e999", "1.5e400", "1" + "0" * 310, "0x1" + "0" * 32, "0x" + "f" * 40, "0o" + "7" * 50, "1e308", "1e309", "0x" + "f" * 32,
+               # characters that are line breaks for YAML 1.1 tools only
+               "a\u2028b", "\u2029x", "k\u2028", "two\u2028\u2028gaps", "nel\u0085x"]
 
 
 def run(tier, seed):
@@ -173,6 +225,23 @@ def run(tier, seed):
                         ck.known_finding("C03-json-int-beyond-2p53",
                                          "out json of an integer beyond 2^53 whose f64 image differs (e.g. 9007199254740993)")
                         continue
+                if conv in ("yaml", "yamlmulti") and why == "decoded data differs" and known_yaml_number_string(v) \
+                        and ck.is_known("C03-yaml-number-like-string"):
+                    # explained by the listed class alone?  make those strings unmistakable strings and re-check
+                    def fixs(x):
+                        if x[0] == "s" and yaml_number_like_overflow(x[1]):
+                            return ("s", "s" + x[1])
+                        if x[0] == "l":
+                            return ("l", [fixs(y) for y in x[1]])
+                        if x[0] == "t":
+                            return ("t", [(("s" + k) if yaml_number_like_overflow(k) else k, fixs(y)) for k, y in x[1]])
+                        return x
+                    v2 = fixs(v)
+                    if check_one(conv, v2, impl_convert(conv, [v2])[0]) is None:
+                        known_seen += 1
+                        ck.known_finding("C03-yaml-number-like-string", "out yaml of a string that reads as a number beyond the writer's own "
+                                         "number parser is left unquoted (e.g. \"1e999\" is read back as the float inf)")
+                        continue
                 if conv == "toml" and known_toml_mixed(v) and ck.is_known("C03-toml-mixed-array") and not must_fail(conv, v):
                     known_seen += 1
                     ck.known_finding("C03-toml-mixed-array", "out toml of a list mixing tuples and other values (e.g. {a = [1, {b = 2}]})")
@@ -229,6 +298,52 @@ def run(tier, seed):
                 else:
                     disagreements.append({"converter": "toml", "value": V.to_wire(v), "impl": r, "model": m})
             cov["toml_model"] = tstats
+        if conv == "yaml" and okm:
+            # the YAML model (converter + serde_yaml serializer + libyaml emitter re-modelled): same bytes, same success/failure; its strict
+            # YAML 1.2 reader against the independent decoder: differences must lie in the listed classes
+            sx = [V.to_sexp(v) for v in vals]
+            unsup_hex = C.hexs("UNSUPPORTED")
+            keep = [i for i, x in enumerate(sx) if unsup_hex not in x]
+            mo = dict(zip(keep, C.model("yaml_out", [sx[i] for i in keep])))
+            mr = dict(zip(keep, C.model("yaml_rt", [sx[i] for i in keep])))
+            ystats = {"compared": len(keep), "unsupported_float_text": len(vals) - len(keep), "ok": 0, "err": 0, "model_rt_ok": 0,
+                      "model_rt_not": 0, "ls_ps": 0, "root_block_indicator": 0, "number_like_string": 0}
+            for i in keep:
+                v, r, m = vals[i], res[i], mo[i]
+                if m.startswith("ok "):
+                    ystats["ok"] += 1
+                    want = C.unhex(m[3:])
+                    got = r.get("ok", {}).get("utf8")
+                    if got is None or got.encode("utf-8") != want:
+                        disagreements.append({"converter": "yaml", "value": V.to_wire(v), "impl": r, "model": want.decode("utf-8", "replace")})
+                        continue
+                    rt_ok = mr[i] == "rt="
+                    ystats["model_rt_ok" if rt_ok else "model_rt_not"] += 1
+                    oracle_ok = check_one(conv, v, r) is None
+                    if rt_ok == oracle_ok:
+                        continue
+                    if oracle_ok and has_ls_ps(v):
+                        # U+2028 / U+2029 are line breaks for the YAML 1.1 emitter (and for the python decoder), ordinary characters for a
+                        # YAML 1.2 reader: the strict reader sees the indentation the emitter adds after them
+                        ystats["ls_ps"] += 1
+                        if ck.is_known("C03-yaml-ls-ps"):
+                            known_seen += 1
+                            ck.known_finding("C03-yaml-ls-ps", "out yaml of a string holding U+2028 / U+2029 outside double quotes: a YAML 1.2 "
+                                             "reader reads extra spaces after them (the YAML 1.1 based decoder does not)")
+                            continue
+                    if oracle_ok and v[0] == "s" and "\n" in v[1] and v[1][:1] in (" ", "\n"):
+                        ystats["root_block_indicator"] += 1       # `|2-` at the root: the strict reader counts the indicator from -1 (reader strictness)
+                        continue
+                    disagreements.append({"converter": "yaml", "value": V.to_wire(v), "impl": r, "model_reader": mr[i],
+                                          "independent_decoder_agrees_with_value": oracle_ok,
+                                          "why": "the model's YAML reader and the independent decoder disagree on whether the output holds the value"})
+                elif m.startswith("err "):
+                    ystats["err"] += 1
+                    if "err" not in r:
+                        disagreements.append({"converter": "yaml", "value": V.to_wire(v), "impl": r, "model": m})
+                else:
+                    disagreements.append({"converter": "yaml", "value": V.to_wire(v), "impl": r, "model": m})
+            cov["yaml_model"] = ystats
     cov["evaluations"] = n * len(CONVS)
     cov["distinct_nontrivial"] = len(set(json.dumps(V.to_wire(v), sort_keys=True) for v in vals if V.size(v) > 1))
     cov["rule"] = ("seeded value trees to depth 5 (NULL, bools, ints incl. +-2^53+-1 and i64 extremes, finite and non-finite floats, "
@@ -245,7 +360,9 @@ def run(tier, seed):
         "finite floats enter the model as decimal text computed independently by python (positional range only; others are compared after decoding)",
         "TOML is proved end to end on a model that re-implements the third-party serializer (toml-rs 0.5.11 value.rs/ser.rs as reached by to_string_pretty) byte for byte; "
         "the tie is the byte comparison on every value; the model's TOML reader is cross-checked against tomllib",
-        "YAML: the serde_yaml emitter is third-party and not modelled; its output is decoded by PyYAML (YAML 1.2 core resolvers)",
+        "YAML: the writer (converter + serde_yaml 0.9.34 serializer + libyaml emitter) is re-modelled byte for byte (tie: byte comparison on every value); "
+        "proved: errors, integers, null/bool, non-finite floats, ASCII single-line strings and keys, flat documents; nested documents, non-ASCII and "
+        "multi-line strings are decided by PyYAML (YAML 1.2 core resolvers) on the real output",
     ]
     if real:
         # shrink the first failure to its smallest failing sub-value
